@@ -32,6 +32,10 @@ SLOT = {"CustomAuth": "auth", "AltAuth": "auth", "CustomControl": "control", "Al
 # ------------------------------------------------------------------ child side (runs library code)
 
 
+_SHARED = bytearray()
+_FANOUT = {}
+
+
 def _transcribe(sessions, order_ops):
     """Execute ops (each tagged with session index) and return per-session transcripts."""
     import sansldap
@@ -60,7 +64,17 @@ def _transcribe(sessions, order_ops):
                 rec["ret"] = bytes(d).hex()
             elif k == "recv":
                 data = bytes.fromhex(op["hex"])
-                msgs = se.receive(bytearray(data) if op.get("ba") else data)
+                if op.get("ba") and op.get("part") == 1:
+                    # a fan-out layer hands the very same (never modified) bytearray object to every session whose
+                    # stream starts with these octets
+                    msgs = se.receive(_FANOUT.setdefault(op["hex"], bytearray(data)))
+                elif op.get("ba"):
+                    # one caller-owned receive buffer for every connection of the process (an event loop's recv_into
+                    # buffer): same object each time, refilled before each receive
+                    _SHARED[:] = data
+                    msgs = se.receive(_SHARED)
+                else:
+                    msgs = se.receive(data)
                 rec["ret"] = [canon_msg(m) for m in msgs]
                 rec["types"] = [[[type(c).__name__, _rawval(c)] for c in (m.controls or [])] for m in msgs]
                 kept.setdefault(i, []).extend(msgs)
@@ -103,6 +117,22 @@ def _registration_semantics(customs_bytes):
                 problems.append([key, "%s raised %s: %s" % (what, type(e).__name__, e)])
             return False, e
 
+    # the built-in types are registered from the start: registering them again is a duplicate registration
+    builtin = [("register_auth_credential", sansldap.SimpleCredential), ("register_auth_credential", sansldap.SaslCredential),
+               ("register_control", sansldap.PagedResultControl), ("register_control", sansldap.ShowDeletedControl),
+               ("register_control", sansldap.ShowDeactivatedLinkControl)]
+    for fname in ("FilterAnd", "FilterOr", "FilterNot", "FilterEquality", "FilterSubstrings", "FilterGreaterOrEqual",
+                  "FilterLessOrEqual", "FilterPresent", "FilterApproxMatch", "FilterExtensibleMatch"):
+        builtin.append(("register_filter", getattr(sansldap, fname)))
+    for role_cls in (sansldap.LDAPClient, sansldap.LDAPServer):
+        for meth0, cls0 in builtin:
+            sess0 = role_cls()
+            ok, e = guarded(None, "", getattr(sess0, meth0), cls0)
+            if ok:
+                problems.append(["duplicate-registration-accepted/%s" % cls0.__name__, "%s(%s) on a fresh %s did not raise although the "
+                                 "type is registered from the start" % (meth0, cls0.__name__, role_cls.__name__)])
+            elif not isinstance(e, ValueError):
+                problems.append(["duplicate-registration-accepted/%s" % cls0.__name__, "duplicate registration raised %s" % type(e).__name__])
     for typ in TYPES:
         a_c, a_s = sansldap.LDAPClient(), sansldap.LDAPServer()
         b_c, b_s = sansldap.LDAPClient(), sansldap.LDAPServer()
@@ -220,7 +250,7 @@ class C19(PropBase):
     REQUIRED_REACH = ("custom_pdu_on_unregistered_session", "custom_pdu_on_registered_session", "duplicate_registration",
                       "registration_after_traffic", "same_type_registered_on_two_sessions", "interleavings_compared",
                       "registration_semantics_checked", "unknown_result_code_on_two_sessions", "same_id_different_class_on_two_sessions",
-                      "send_failed_while_encoding")
+                      "send_failed_while_encoding", "shared_recv_buffer_with_residue", "envelope_name_on_other_kind")
 
     # ---------------------------------------------------------------- generation (no library code here)
 
@@ -258,6 +288,8 @@ class C19(PropBase):
         return dict(self._script_op(g, rng), s=i)
 
     def _script_op(self, g, rng):
+        if g.get("queue"):
+            return g["queue"].pop(0)
         model = g["model"]
         role = g["role"]
         gen = Gen(rng, big=0.05, customs=sorted(x for x in g["regs"] if x in TYPES))
@@ -290,9 +322,11 @@ class C19(PropBase):
                 msg = policy.byz_response(gen, mid, kind, code)
                 if kind != "BindResponse" and rng.random() < 0.3 and "result" in msg:
                     msg["result"]["code"] = rng.choice(CODES)
+                if rng.random() < 0.15:
+                    msg["envelope_name"] = rng.choice([NOTICE_OID, "1.2.3.4.5"])
                 data = rfc4511.enc_msg(msg)
                 self._model_recv(g, data)
-                return {"k": "recv", "hex": data.hex(), "ba": rng.random() < 0.3}
+                return self._recv_ops(g, rng, data)
             c = policy.client_call(genc, model, illegal_p=0.2, allow_unbind=0.02)
             if c is None:
                 return {"k": "drain", "n": None}
@@ -308,9 +342,11 @@ class C19(PropBase):
             if model.out:
                 kind = rng.choice(["SearchRequest", "ExtendedRequest"])
             msg = policy.byz_request(gen, mid, kind)
+            if rng.random() < 0.15:
+                msg["envelope_name"] = rng.choice([NOTICE_OID, "1.2.3.4.5"])
             data = rfc4511.enc_msg(msg)
             self._model_recv(g, data, custom=_uses_custom(msg))
-            return {"k": "recv", "hex": data.hex(), "ba": rng.random() < 0.3}
+            return self._recv_ops(g, rng, data)
         if rng.random() < 0.2:
             m, a, _ = policy.server_any_call(genc, model, p_unbind=0.02)
         else:
@@ -325,6 +361,16 @@ class C19(PropBase):
         if exp in ("accept", "either"):
             model.call_commit(m, a, True)
         return {"k": "call", "m": m, "a": a}
+
+    def _recv_ops(self, g, rng, data):
+        """One canned delivery; sometimes cut in two so that the session holds a residue while other sessions run
+        (the second half is queued and issued as this session's next op)."""
+        ba = rng.random() < 0.4
+        if len(data) > 4 and rng.random() < 0.3:
+            cut = rng.choice([1, 1, 2, rng.randint(1, len(data) - 1), rng.randint(1, len(data) - 1)])
+            g["queue"] = [{"k": "recv", "hex": data[cut:].hex(), "ba": ba}]
+            return {"k": "recv", "hex": data[:cut].hex(), "ba": ba, "part": 1}
+        return {"k": "recv", "hex": data.hex(), "ba": ba}
 
     def _custom_pdu(self, g, rng):
         """A canned PDU that carries a custom type (whether or not this session has registered it)."""
@@ -462,6 +508,12 @@ class C19(PropBase):
                         unreg_decode = True
                 if op["k"] in ("call", "recv") and any(str(c) in json.dumps(op.get("a", {})) + op.get("hex", "") for c in ()):
                     pass
+        for i, v in per.items():
+            for op in v:
+                if op.get("part") and op.get("ba"):
+                    st.hit("shared_recv_buffer_with_residue")
+                if op["k"] == "recv" and "8a16312e332e36" in op["hex"] or (op["k"] == "recv" and "8a09312e322e33" in op["hex"]):
+                    st.hit("envelope_name_on_other_kind")
         oks = []
         for i, v in per.items():
             good = set()
